@@ -1602,7 +1602,11 @@ pub(crate) fn rewrite_paren(
 
         // Remove nested parens if there are no comments.
         if let ast::ExprKind::Paren(ref subsubexpr) = subexpr.kind {
-            if remove_nested_parens && pre_comment.is_empty() && post_comment.is_empty() {
+            if remove_nested_parens
+                && subexpr.attrs.is_empty()
+                && pre_comment.is_empty()
+                && post_comment.is_empty()
+            {
                 span = subexpr.span;
                 subexpr = subsubexpr;
                 continue;
